@@ -25,11 +25,15 @@ Timeouts == [kind : {"timeout"}, hv : BOOLEAN, hq : BOOLEAN, view : {"0", "max"}
 Commits == [kind : {"commit"}, view : {"0", "max"}, number : {"0", "max"}, epoch : {"0", "max"}]
 Blocks == [kind : {"block"}, payload : {"empty", "one_byte", "large"}]
 TQCs == [kind : {"tqc"}, groups : {0, 1, 2}]
+(* The vote map of a timeout certificate is keyed by the report (ReplicaTimeout). Two reports that differ in ONE leaf - down to the bytes of the    *)
+(* aggregate signature of the nested commit certificate - are two keys: map identity (equality) and map order must agree, the certificate holds  *)
+(* both, its bytes do not depend on the insertion order, and it round-trips.                                                                     *)
+TQCNear == [kind : {"tqc_near"}, leaf : {"hv_presence", "hv_view", "hv_number", "hv_payload", "hq_presence", "hq_view", "hq_number", "hq_signers", "hq_signature"}]
 NetAddrs == [kind : {"netaddr"}, version : {"0", "max"}, ts : {"0", "max"}]
 Geneses == [kind : {"genesis"}, schedule : BOOLEAN, first : {"0", "max"}]
 States == [kind : {"replica_state"}, proposals : {0, 1, 2}, payload : {"empty", "one_byte"}, certs : BOOLEAN, phase : {"prepare", "commit", "timeout"}]   \* every value of every enumeration
 Schedules == [kind : {"schedule"}, mode : {"rr", "weighted"}, freq : {"0", "1", "max"}, nonleader : BOOLEAN]
-Cases == Schedules \cup SockAddrs \cup Durations \cup Utcs \cup BitVecs \cup Rates \cup Proposals \cup Timeouts \cup Commits \cup Blocks \cup TQCs \cup NetAddrs \cup Geneses \cup States
+Cases == Schedules \cup SockAddrs \cup Durations \cup Utcs \cup BitVecs \cup Rates \cup Proposals \cup Timeouts \cup Commits \cup Blocks \cup TQCs \cup TQCNear \cup NetAddrs \cup Geneses \cup States
 ASSUME \A c \in Cases : PrintT(<<"CASE", ToJson(c @@ [lossless |-> TRUE])>>)
 VARIABLE x
 Init == x = 0
